@@ -7,7 +7,7 @@ ASSUME = [
     'every sequence is executed twice: once with all accessors compared after every operation, once with the accessors called only after the last operation (an accessor that leaves state behind -- a cached index -- must not be kept consistent by the observer)',
     'the bulk iterator (a RobustIRC-specific accessor, not part of raft.LogStore) is compared on the log entries it yields; stable-store keys that a range spanning 0x7374... yields on a store that also holds stable keys are skipped: the repository only bulk-iterates the IRC log copy, which holds none',
     'alphabet: 12 stores (StoreLog / StoreLogs batch of 2 / StoreLogProto; indexes 1,2,3,7,2^40,2^63; LogCommand/LogNoop/LogConfiguration; payload protobuf message, JSON message, empty, opaque bytes with and without a leading p; term/extensions/append time zero and set), 8 DeleteRange ranges (single, prefix, only-missing, middle, min>max, single large, suffix, all), 6 stable writes (Set/SetUint64 on CurrentTerm, LastVoteCand and 8-byte keys equal to the big-endian indexes 7 and 2^63), Close+reopen as JSON and as protobuf; every sequence is run from an empty database opened as JSON and as protobuf',
-    'reopen transitions json->json, json->protobuf (ConvertToProto), protobuf->protobuf; protobuf->json is not a supported transition of the repository and is left out',
+    'reopen transitions json->json, json->protobuf (ConvertToProto), protobuf->protobuf and protobuf->json (a downgrade: the store then holds both encodings, every reader decides per value)',
     'LogCommand payloads are robust messages (JSON or p+protobuf) as everywhere in the repository (robust.NewMessageFromBytes panics on anything else, so does ConvertToProto); empty and opaque payloads are used with the other entry types only',
     'append time is compared with time.Equal (location and monotonic reading are not part of the stored value); nil and empty byte slices are the same value; StoreLogProto is always given an AppendedAt timestamp, like its two callers do',
     'after a reopen as protobuf (ConvertToProto ran) LogCommand payloads may differ in bytes but must decode (robust.NewMessageFromBytes) to the same message; everything else stays byte-identical',
